@@ -123,7 +123,10 @@ def main(tier, seed, replay=None):
             continue
         for b in serde_oracle(dp)[:1]:
             nb += 1
-            viol.append(({"file": dp["file"]}, "serde bound not closed: " + b))
+            if "HashMap<String," in b and "serde-usage-misses-map-values" in kf:
+                known_hits.add("serde-usage-misses-map-values")
+            else:
+                viol.append(({"file": dp["file"]}, "serde bound not closed: " + b))
     for (c, rc, txt) in gen_fail:
         # a generator failure writes nothing: not a C01 violation by itself (C12 covers crashes)
         pass
@@ -158,4 +161,12 @@ def classify(diags, c):
                        for item in c["spec"].get("paths", {}).values() for op in item.values() if isinstance(op, dict))
     if c["mode"] == "server-mod" and has_bin_body and codes == {"E0308"} and all("Bytes" in d_["rendered"] and "server.rs" in d_["rendered"] for d_ in diags):
         return "server-binary-body-type-mismatch"
+    ops = [op for item in c["spec"].get("paths", {}).values() for op in item.values() if isinstance(op, dict)]
+    opt_raw_body = any("requestBody" in op and not op["requestBody"].get("required", False)
+                       and any(not (ct.endswith("json") or ct.endswith("x-www-form-urlencoded") or ct.startswith("multipart")) for ct in op["requestBody"].get("content", {}))
+                       for op in ops)
+    if c["mode"] == "server-mod" and opt_raw_body and all(d_["code"] == "E0277" and "Handler<" in d_["message"] for d_ in diags):
+        return "server-optional-raw-body-extractor"
+    if all(d_["code"] == "E0277" and re.search(r"the trait bound `[\w:]+: serde::(Serialize|Deserialize<'de>)` is not satisfied", d_["message"]) and "required for `HashMap<String, " in d_["rendered"] for d_ in diags):
+        return "serde-usage-misses-map-values"
     return None
